@@ -581,14 +581,16 @@ fn check_c16(cases: &[Case], results: &[Option<RunResult>]) -> Vec<Violation> {
                 // em affixes surround exactly the element's text (single-line check on unique tokens)
                 let custom = c.meta.strs();
                 let dom = dom_of(r);
-                let text = lines.join("\n");
+                // whitespace-free view: a word (with its affixes) may be wrapped
+                let text: String = lines.join("\n").chars().filter(|ch| !ch.is_whitespace()).collect();
+                let plain_flow = !has_element(&dom, &["table", "ul", "ol", "blockquote", "h1", "h2", "h3", "h4", "h5", "h6", "pre"]);
                 walk(&dom, &mut |n, anc| {
                     if (n.is("em") || n.is("i")) && !anc.iter().any(|a| a.is("pre")) {
                         if let [DNode::Text(t)] = n.kids() {
                             let toks: Vec<&str> = t.split_whitespace().collect();
                             if toks.len() == 1 && !t.starts_with(char::is_whitespace) && !t.ends_with(char::is_whitespace) {
                                 let want = format!("{}{}{}", custom[2], toks[0], custom[3]);
-                                if text.contains(toks[0]) && !text.contains(&want) && str_width(&want) + 12 < c.spec.width && !has_element(&dom, &["table"]) {
+                                if plain_flow && text.contains(toks[0]) && !text.contains(&want) {
                                     v.push(viol(i, "emphasis affixes are not verbatim around the element", format!("wanted {:?}", want), None));
                                 }
                             }
